@@ -69,7 +69,8 @@ VALUES = [b"v", b"", b"x\r\nget k\r\n", b"END\r\n", b"VALUE k 0 1\r\nz\r\nEND\r\
           "text", 5, -17]
 INT_OK = {"exp": [0, 1, -1, 2 ** 63 - 1, -(2 ** 63), 2592001], "flags": [None, 0, 1, 2 ** 32 - 1],
           "cas": [0, 1, U64 - 1, b"123", "456"], "delta": [0, 1, U64 - 1]}
-INT_BAD = {"exp": ["10", 1.5, None, b"3"], "cas": ["abc", -1, 1.5, None, b"1 2"], "delta": ["1", 2.0, None]}
+INT_BAD = {"exp": ["10", 1.5, None, b"3"], "cas": ["abc", -1, 1.5, None, b"1 2", "12\n", b"12\n", b"7 noreply", "7\r\n", " 7", b""],
+           "delta": ["1", 2.0, None]}
 
 RAW_MAX = 12000
 
